@@ -1,7 +1,7 @@
 (* C15 — the validators at the (unverified) float instance, applied to the real outputs of /repo.
    Definitions only.  Tolerances are arguments; the check passes the documented ones. *)
 From Coq Require Import PrimFloat List Bool Arith.
-From VF Require Import Base.RingOps Base.Mat Base.Tensor Base.FloatInst Base.Harness Gates.Families Sim.Ref Xform.KakCanon.
+From VF Require Import Base.RingOps Base.Mat Base.Tensor Base.FloatInst Base.Harness Gates.Families Sim.Ref Xform.KakCanon Xform.KakCount Xform.KakTab.
 Import ListNotations.
 Open Scope float_scope.
 
@@ -101,3 +101,22 @@ Definition kak_vector_ok_f (atol tol kx ky kz x y z : float) : bool :=
 Definition first_columns (k : nat) (m : FM) : list FC := concat (firstn k (mtranspose FOps m)).
 Definition isometry_phase_f (tol : float) (sh : list nat) (ops : list (gop (K:=FC))) (U : FM) : bool :=
   fcl_close_phase tol (first_columns 2 (circ_unitary FOps sh ops)) (first_columns 2 U).
+
+(* ---- the tabulation decomposition (Xform/KakTab.v): TwoQubitGateTabulation.compile_two_qubit_gate ---- *)
+(* entanglement infidelity 1 - |tr(U^dagger V)|^2 / 16 of two 4x4 matrices *)
+Definition ent_infidelity_f (U V : FM) : float := 1 - fc_norm2 (overlap FOps U V) / 16.
+(* the documented product k_N . A . k_{N-1} ... A . k_0 of the returned (k_j0, k_j1) pairs: the model's tab_product *)
+Definition tab_product_f (A : FM) (ks : list (FM * FM)) : FM :=
+  tab_product FOps A (map (fun p => kron FOps (fst p) (snd p)) ks).
+(* form of a result: 2..4 local layers (1..3 base gates), every factor a 2x2 unitary, actual_gate and the base gate 4x4 unitaries *)
+Definition tab_form_f (tol : float) (A : FM) (ks : list (FM * FM)) (actual : FM) : bool :=
+  Nat.leb 2 (length ks) && Nat.leb (length ks) 4 &&
+  forallb (fun p => is_unitary_f tol 2 (fst p) && is_unitary_f tol 2 (snd p)) ks &&
+  is_unitary_f tol 4 A && is_unitary_f tol 4 actual.
+(* the model's product against the reference semantics of the same layers written as a circuit *)
+Definition tab_model_f (tol : float) (A : FM) (ks : list (FM * FM)) (ops : list (gop (K:=FC))) : bool :=
+  fcll_close tol (tab_product_f A ks) (circ_unitary FOps [2; 2]%nat ops).
+(* success = True: the circuit's unitary is within the tabulation's infidelity bound of the target (strictly, as compile_two_qubit_gate
+   documents "success: whether actual_gate is expected to be close to U_target"; slack for binary64 noise) *)
+Definition within_infidelity_f (bound slack : float) (ops : list (gop (K:=FC))) (target : FM) : bool :=
+  PrimFloat.ltb (ent_infidelity_f (circ_unitary FOps [2; 2]%nat ops) target) (bound + slack).
